@@ -12,6 +12,7 @@
 #include <cstdint>
 #include <functional>
 #include <memory>
+#include <mutex>
 #include <system_error>
 #include <sys/epoll.h>
 #include <vector>
@@ -162,7 +163,13 @@ public:
 
   BatchProcessingStats getStats() const
   {
-    auto stats = stats_;
+    // getStats() is called from arbitrary application threads (Transport::getStats)
+    // while the I/O thread updates the counters: copy under the stats mutex.
+    BatchProcessingStats stats;
+    {
+      std::lock_guard<std::mutex> lk(statsMutex_);
+      stats = stats_;
+    }
 
     if (stats.totalBatches > 0)
     {
@@ -181,6 +188,7 @@ public:
 
   void resetStats()
   {
+    std::lock_guard<std::mutex> lk(statsMutex_);
     stats_ = {};
     lastAdjustment_ = std::chrono::steady_clock::now();
   }
@@ -223,6 +231,7 @@ private:
 
   void updateStats(int eventCount, std::chrono::microseconds processingTime)
   {
+    std::lock_guard<std::mutex> lk(statsMutex_);
     stats_.totalBatches++;
     stats_.totalEvents += eventCount;
     stats_.totalBatchTime += processingTime;
@@ -278,20 +287,27 @@ private:
       // Increase by 25% or at least 1
       std::size_t increase = std::max(1UL, currentBatchSize_ / 4);
       currentBatchSize_ = std::min(config_.maxBatchSize, currentBatchSize_ + increase);
-      stats_.adaptiveAdjustments++;
+      {
+        std::lock_guard<std::mutex> lk(statsMutex_);
+        stats_.adaptiveAdjustments++;
+      }
     }
     else if (shouldDecrease && currentBatchSize_ > 1)
     {
       // Decrease by 25% but at least keep 1
       std::size_t decrease = std::max(1UL, currentBatchSize_ / 4);
       currentBatchSize_ = std::max(1UL, currentBatchSize_ - decrease);
-      stats_.adaptiveAdjustments++;
+      {
+        std::lock_guard<std::mutex> lk(statsMutex_);
+        stats_.adaptiveAdjustments++;
+      }
     }
   }
 
 private:
   BatchProcessingConfig config_;
   std::vector<epoll_event> events_;
+  mutable std::mutex statsMutex_; // guards stats_ (written by the I/O thread, read by getStats())
   BatchProcessingStats stats_;
 
   // Adaptive sizing state
